@@ -155,7 +155,42 @@ def doc_case(case):
     return dict(key=case, nontrivial=want is not None, failures=fails, sample=dict(lines=lines + [el], oracle=want, accepted=ok))
 
 
+RGFA_S_TAGS = {"SN": "Z", "SO": "i", "SR": "i"}
+RGFA_L_TAGS = {"SR": "i", "L1": "i", "L2": "i"}
+_RGFA_VAL = {"Z": "chr1", "i": "0", "f": "3.0", "A": "x", "J": "1"}
+
+
+def rgfa_case(case):
+    """rGFA dialect (oracle written from the rGFA specification): S lines carry SN:Z, SO:i, SR:i; L lines may carry SR, L1, L2, all of type i; overlaps are 0M;
+    no H, C, P lines.  case = ("rgfa", tags of S line 1 as ((name, type), ...), tags of the L line, overlap, extra line or None, vlevel)"""
+    _, stags, ltags, ov, extra, vlevel = case
+    tg = lambda tags: "".join("\t%s:%s:%s" % (n, t, _RGFA_VAL[t]) for n, t in tags)
+    lines = ["S\ts1\t*" + tg(stags), "S\ts2\t*\tSN:Z:chr1\tSO:i:10\tSR:i:0", "L\ts1\t+\ts2\t+\t%s" % ov + tg(ltags)] + ([extra] if extra else [])
+    sd, ld = dict(stags), dict(ltags)
+    want = (all(sd.get(n) == t for n, t in RGFA_S_TAGS.items()) and all(ld[n] == t for n, t in RGFA_L_TAGS.items() if n in ld) and ov == "0M" and extra is None)
+    fails = []
+    try:
+        g = gfapy.Gfa(lines, vlevel=vlevel, dialect="rgfa")
+        g.validate()
+        ok = True
+    except gfapy.Error:
+        ok = False
+    except Exception as e:
+        ok = None
+        fails.append(dict(signature="C07:foreign-exception:Gfa:rgfa:%s" % type(e).__name__, what="%r: %s" % (lines, harness.short(e, 120)), case=dict(lines=lines, vlevel=vlevel)))
+    rep = "import gfapy\ng = gfapy.Gfa(%r, vlevel=%d, dialect='rgfa'); g.validate(); print('accepted')" % (lines, vlevel)
+    if want is False and ok is True:
+        why = ("S-tags" if not all(sd.get(n) == t for n, t in RGFA_S_TAGS.items()) else "L-tag-datatype" if not all(ld[n] == t for n, t in RGFA_L_TAGS.items() if n in ld)
+               else "overlap" if ov != "0M" else "record-type-%s" % extra[0])
+        fails.append(dict(signature="C04:doc:rgfa:accepts-invalid:%s" % why, what="%r accepted in the rGFA dialect" % (lines,), case=dict(lines=lines, vlevel=vlevel), reproducer=rep))
+    if want is True and ok is False:
+        fails.append(dict(signature="C04:doc:rgfa:rejects-valid", what=repr(lines), case=dict(lines=lines, vlevel=vlevel), reproducer=rep))
+    return dict(key=case, nontrivial=True, failures=fails, sample=dict(lines=lines, oracle=want, accepted=ok))
+
+
 def check(case):
+    if case[0] == "rgfa":
+        return rgfa_case(case)
     if case[0] == "doc":
         return doc_case(case)
     return field_case(case) if case[0] == "field" else line_case(case)
@@ -212,6 +247,19 @@ def cases(tier, seed):
                 for positions in (("0", "8$"), ("0", "5$"), ("8$", "8$"), ("5$", "5$"), ("0", "8"), ("3", "5"), ("0", "9$")):
                     for vlevel in (1, 2, 3):
                         out.append(("doc", seq1, seq2, pair, positions, vlevel))
+    # the rGFA dialect: mandatory S tags (present / absent / wrongly typed), optional L tags (each absent / typed i / wrongly typed), overlap, forbidden record types
+    good_s = (("SN", "Z"), ("SO", "i"), ("SR", "i"))
+    s_variants = [good_s] + [tuple(x for x in good_s if x[0] != n) for n in RGFA_S_TAGS] + [tuple((a, (bad if a == n else t)) for a, t in good_s) for n in RGFA_S_TAGS for bad in ("f", "A")]
+    l_variants = [()] + [((n, t),) for n in RGFA_L_TAGS for t in ("i", "Z", "f", "J")] + [(("SR", "i"), ("L1", "i"), ("L2", "i")), (("SR", "i"), ("L1", "i"), ("L2", "Z")), (("SR", "i"), ("L1", "f"), ("L2", "i"))]
+    for vlevel in (1, 2, 3):
+        for sv in s_variants:
+            out.append(("rgfa", sv, (), "0M", None, vlevel))
+        for lv in l_variants:
+            out.append(("rgfa", good_s, lv, "0M", None, vlevel))
+        for ov_ in ("*", "1M", "0M1I"):
+            out.append(("rgfa", good_s, (), ov_, None, vlevel))
+        for extra in ("H\tVN:Z:1.0", "C\ts1\t+\ts2\t+\t0\t*", "P\tp\ts1+,s2+\t0M"):
+            out.append(("rgfa", good_s, (), "0M", extra, vlevel))
     nmut = 12 if tier == "quick" else 40
     for version in ("gfa1", "gfa2"):
         for i, (text, req) in universe.CAT[version].items():
@@ -230,6 +278,7 @@ if __name__ == "__main__":
     res = harness.run(cs, check,
                       rule="field level: every string of length <=%d over the %d-character alphabet %r (+ %s) x %d datatypes, decode/validate_encoded verdict vs the oracle grammar (cells marked ~ skipped); "
                            "line level: every catalogue line and single-point mutations (delete/insert/replace one character, drop/duplicate last field), gfapy.Line at vlevel 1-3 vs oracle line_ok. "
+                           "rGFA dialect: 96 documents (mandatory S tags present / absent / wrongly typed, optional L tags SR L1 L2 absent / typed i / wrongly typed, overlap 0M or not, an H / C / P line) at vlevel 1-3, Gfa(..., dialect='rgfa') + validate() vs the rGFA rules. "
                            "non-trivial = the oracle pins the verdict; distinct = distinct (datatype,string) / (version,line)" % (3 if tier == "quick" else 4, len(ALPHABET), ALPHABET, "3000 random length-4 strings and a list of edge cases" if tier == "quick" else "edge cases", len(DATATYPES)),
                       bound="strings of length <=%d exhaustively" % (3 if tier == "quick" else 4), exhaustive=False)
     harness.emit(res)
